@@ -166,11 +166,15 @@ impl<'a> Rw<'a> {
                 }
             }
             ("select-to-if-chain", Stmt::Select { subject, cases, else_ }) => {
+                // a CASE with several items (or a range) becomes one condition that evaluates all of them, whereas SELECT stops at
+                // the first item that matches: such items must be free of calls; a single value / IS item may be any expression
+                // (the chain evaluates it at the same moment and as often as SELECT does)
                 let items_ok = cases.iter().all(|(items, _)| {
-                    items.iter().all(|it| match it {
-                        CaseItem::Val(e) | CaseItem::Is(_, e) => leaf(e),
-                        CaseItem::Range(a, b) => leaf(a) && leaf(b),
-                    })
+                    (items.len() == 1 && matches!(items[0], CaseItem::Val(_) | CaseItem::Is(..)))
+                        || items.iter().all(|it| match it {
+                            CaseItem::Val(e) | CaseItem::Is(_, e) => leaf(e),
+                            CaseItem::Range(a, b) => leaf(a) && leaf(b),
+                        })
                 });
                 if !items_ok || cases.is_empty() || !self.want() {
                     out.push(Stmt::Select { subject, cases, else_ });
@@ -364,16 +368,21 @@ fn one_case(sh: &mut Shard, tape: &[u32], cfg: &GenCfg) -> Result<(), Violation>
         c2.data = false;
         c2.deftypes = false;
         c2.errors = cfg.errors;
+        c2.force_rec = (which >> 7) % 3 == 0;
         Gen::new(&tape[used.min(tape.len())..], &c2).calls_program()
     } else {
         Gen::new(&tape[used.min(tape.len())..], cfg).core_program()
     };
     // choose among the rules that have an eligible site; the spelling rules (first seven) weigh three times a context rule
     let mut menu: Vec<&str> = vec![];
+    // (a construct inside a procedure that is re-entered while the construct runs is where per-activation state matters: a
+    // rule with a site there weighs four times as much again)
+    let recursive: Vec<String> = prog.procs.iter().enumerate().filter(|(_, p)| p.name == "Rec&").map(|(i, _)| format!("p{}/", i)).collect();
     for (k, r) in RULES.iter().enumerate() {
-        let (_, _, eligible) = rewrite(&prog, r, &|_| false);
+        let (_, sites, eligible) = rewrite(&prog, r, &|_| !recursive.is_empty());
         if eligible > 0 {
-            for _ in 0..(if k < 7 { 3 } else { 1 }) {
+            let in_recursive = sites.iter().any(|s| recursive.iter().any(|p| s.starts_with(p.as_str())));
+            for _ in 0..(if k < 7 { 3 } else { 1 }) * (if in_recursive { 4 } else { 1 }) {
                 menu.push(r);
             }
         }
@@ -412,6 +421,9 @@ fn one_case(sh: &mut Shard, tape: &[u32], cfg: &GenCfg) -> Result<(), Violation>
         sh.class("base:program-with-subprograms");
         if applied.iter().any(|p| p.starts_with('p')) {
             sh.class("site-inside-subprogram");
+        }
+        if applied.iter().any(|s| recursive.iter().any(|p| s.starts_with(p.as_str()))) {
+            sh.class(&format!("site-inside-recursive-function:{}", rule));
         }
     }
     sh.class(match mode {
